@@ -61,7 +61,7 @@ def written_between_rotations(run, seen, quick):
     """a block written to the output that the (possibly throwing) first rotation opened: if write_block() returned normally and the
     rotation that closes that output returns normally too, the output holds that block - complete and valid; it never loses bytes
     silently because of a failure that belonged to the PREVIOUS output"""
-    scen = [(t, c, big) for t in ("nm", "fd") for c in ("n", "g", "x") for big in ((False, True) if not quick else (False,))]
+    scen = [(t, c, big) for t in ("nm", "fd") for c in ("n", "g", "x") for big in (False, True)]
     def script(t, c, big):
         pad = "x" + "41" * (3000 if big else 10)
         q = lambda i: "Q:cport=%d,qn=%s" % (i, pad)
@@ -104,7 +104,9 @@ def written_between_rotations(run, seen, quick):
             continue
         run.count("block written to the output a throwing rotation had opened")
         lg = lean_of.get(j)
-        ok = lg is not None and not lg.startswith("S invalid") and lg.count("Q{") == 1
+        # (records of a block whose write was refused earlier stay buffered and may be written with it: the output must be valid
+        #  and hold the record buffered between the two rotations, cport=3)
+        ok = lg is not None and not lg.startswith("S invalid") and ("cport=3," in lg or "cport=3}" in lg)
         if not ok:
             sig = "fault:silent-loss-in-next-output:" + tag
             if sig not in seen:
